@@ -7,11 +7,20 @@
  * interposed from this executable), the blocking epoll_wait() of the I/O thread, thread start and exit.
  * vx enumerates all schedules with at most B preemptions (CHESS-style iterative context bounding).
  *
+ * Two scenario families: "c13:" (API-call menu against request / response / NACK / event callbacks) and "c13x:" (every other
+ * call-out libcoap makes into the application while other threads are alive: ping and pong handlers over UDP - keep-alive
+ * on an idle session, answered by RST by the own server endpoint and by a raw peer, raw empty CON - and over TCP - 7.02 /
+ * 7.03 signalling against a raw stream peer -, cache-entry app-data free on idle expiry, resource user-data release, large-
+ * data release, observe persist tracking call-outs; virtual time passes while the API threads are alive because an API
+ * thread sleeps).  Every callback re-enters lock-taking public API.
+ *
  * Oracles: (1) ownership invariant: whenever a function whose name ends in _lkd (the repository's own
  * convention for "caller holds the lock"), or one of the dispatch functions, is entered while more than
  * one thread is alive, the entering thread owns the global lock (checked through -finstrument-functions
  * on the library objects); (2) no deadlock (no enabled thread while some are unfinished), no livelock
- * (step horizon), lock free and callback counters zero at the end; (3) every request answered; (4) ASan.
+ * (step horizon), lock free and callback counters zero at the end; a thread that calls pthread_mutex_lock() on the global lock
+ * it already owns (non-recursive mutex: it can never return) is reported on the spot with the callback it is in;
+ * (3) every request answered; (4) ASan.
  */
 #include "netsim.h"
 #include "wire.h"
@@ -27,7 +36,9 @@
 /* the global lock object, if the library has one (first member is the mutex in both layouts) */
 #if COAP_THREAD_SAFE
 #define GLOBAL_MUTEX ((void *)&global_lock.mutex)
+#define IN_CALLBACK ((unsigned)global_lock.in_callback)
 #else
+#define IN_CALLBACK 0u
 /* locking is compiled out of the library in this configuration: there is no global lock object at all */
 #define GLOBAL_MUTEX ((void *)0)
 #endif
@@ -64,6 +75,8 @@ resolve(void) {
   }
 }
 static NOINSTR int async_ready(void);
+static NOINSTR int stream_readable(void);
+static uint64_t io_deadline; /* virtual time at which the blocking epoll_wait() of the I/O thread times out */
 static NOINSTR int
 enabled(int t) {
   if (T[t].state == T_RUN)
@@ -73,7 +86,9 @@ enabled(int t) {
   if (T[t].state == T_WAITASYNC)
     return async_ready();
   if (T[t].state == T_WAITIO)
-    return ns_inflight_count() > 0; /* readiness wakes the I/O thread; the timeout only when nothing else can run */
+    /* readiness wakes the I/O thread; so does its timeout once virtual time (moved by a sleeping API thread) has reached it;
+     * otherwise the timeout is taken only when nothing else can run */
+    return ns_inflight_count() > 0 || stream_readable() || ns_now() >= io_deadline;
   return 0;
 }
 static NOINSTR void
@@ -86,7 +101,12 @@ dump_threads(char *b, size_t n) {
 }
 static const char *last_callback = "none";
 
-/* called with smu held by the running thread; picks the next thread and hands over */
+static __thread const char *cb_stack[8]; /* application callbacks this thread is inside of (nesting: callback -> API -> callback) */
+static __thread int cb_depth;
+
+/* called with smu held by the running thread; picks the next thread and hands over.
+ * me_enabled: 0 = the caller cannot continue, 1 = it can (switching away is a preemption, cost 1),
+ * 2 = it can, but it is returning from a blocking call (sleep): switching away is free, as in CHESS */
 static NOINSTR void
 schedule(const char *label, int me_enabled) {
   int en[MAXT], n = 0;
@@ -97,7 +117,7 @@ schedule(const char *label, int me_enabled) {
   }
   for (int t = 0; t < nthreads; t++)
     if (t != my_id && enabled(t)) {
-      cost[n] = me_enabled ? 1 : 0;
+      cost[n] = me_enabled == 1 ? 1 : 0;
       en[n++] = t;
     }
   if (n == 0) {
@@ -130,7 +150,7 @@ schedule(const char *label, int me_enabled) {
     vx_observe("pt %s in %s n=%d", label, T[my_id].name, n);
   int c = vx_choose(n, cost, label);
   int next = en[c];
-  if (me_enabled && next != my_id) {
+  if (me_enabled == 1 && next != my_id) {
     preemptions++;
     vx_nontrivial();
   }
@@ -165,6 +185,16 @@ pthread_mutex_lock(pthread_mutex_t *m) {
   if (!sched_on || my_id < 0 || !is_global(m))
     return real_lock(m);
   real_lock(&smu);
+  if (lock_owner == my_id) {
+    /* non-recursive mutex locked again by its owner: this call never returns, the thread hangs holding the global lock */
+    char sig[120], d[300];
+    dump_threads(d, sizeof d);
+    snprintf(sig, sizeof sig, "self-deadlock:relock-inside-callback:%s", cb_depth ? cb_stack[cb_depth - 1] : "none");
+    vx_fail(sig, "thread %s calls pthread_mutex_lock() on the global lock it already owns (application callback it is inside of: %s, "
+                 "in_callback=%u): the call can never return and every other thread blocks on its next API call; %s",
+            T[my_id].name, cb_depth ? cb_stack[cb_depth - 1] : "none", IN_CALLBACK, d);
+    vx_exit_now();
+  }
   schedule("lock", 1);
   while (lock_owner != -1) {
     T[my_id].state = T_BLOCKED;
@@ -303,16 +333,34 @@ struct cfg {
   int nworkers;
   int ops[3][2]; /* per worker up to 2 ops, -1 = none */
   int bound;
+  int flags;
 };
-enum { OP_SEND, OP_NOTIFY, OP_SESSION, OP_RESOURCE, OP_CACHE, OP_REF, OP_SEND_DEAD, OP_ASYNC_TRIGGER, OP_NEWPEER, OP_NOPS };
+/* scenario flags of the "c13x:" family */
+#define F_CBX 1     /* ping / pong / resource-user-data-release handlers registered, keep-alive on, client session to a raw UDP peer */
+#define F_TCP 2     /* + CoAP-over-TCP client session to a raw stream peer (CSM, 7.02 Ping, 7.03 Pong) */
+#define F_PERSIST 4 /* + observe persist tracking call-outs (coap_persist_track_funcs) registered after set-up */
+#define KEEPALIVE_S 2
+#define SLEEP_MS 2100 /* > keep-alive period and > idle timeout of the cache entry */
+#define RAW_HOST 7
+#define RAWTCP_HOST 8
+enum {
+  OP_SEND, OP_NOTIFY, OP_SESSION, OP_RESOURCE, OP_CACHE, OP_REF, OP_SEND_DEAD, OP_ASYNC_TRIGGER, OP_NEWPEER,
+  OP_NOPS, /* menu of the "c13:" family ends here; the following ops are used by "c13x:" scenarios only */
+  OP_SLEEP = OP_NOPS, OP_RAW_PING, OP_SEND_PING, OP_CACHE_APP, OP_RESOURCE_UD, OP_SEND_LARGE, OP_OBSERVE, OP_DEREGISTER,
+  OP_ALL
+};
 static coap_session_t *extra_sess[MAXT];
-static const char *op_names[] = {"send", "notify", "session", "resource", "cache", "ref", "send-dead", "async-trigger", "new-peer"};
+static const char *op_names[] = {"send", "notify", "session", "resource", "cache", "ref", "send-dead", "async-trigger", "new-peer",
+                                 "sleep", "raw-ping", "send-ping", "cache-app", "resource-ud", "send-large", "observe", "deregister"};
 
 static struct cfg *C;
 static coap_context_t *ctx;
-static coap_session_t *cs, *dead;
+static coap_session_t *cs, *dead, *rawc, *tcps;
+static ns_stream_t *tcp_stream;
 static coap_resource_t *res_r, *res_q;
-static coap_address_t srv, deadpeer;
+static coap_address_t srv, deadpeer, rawpeer, rawtcp;
+static int tearing_down; /* run() is releasing the objects the callbacks would re-enter with */
+static int ping_seen, pong_seen, callout_seen, reentry_returns, raw_rst_sent, raw_pong_sent;
 static int workers_done, setup_done;
 static int req_sent, resp_seen, nack_seen, ev_seen, handler_calls, reentry_sends;
 static coap_async_t *pend_async;
@@ -320,10 +368,28 @@ static int workers_done_io; /* the I/O thread finished: nobody will register an 
 static int io_idle;
 
 static void
+cb_enter(const char *name) {
+  last_callback = name;
+  if (cb_depth < 8)
+    cb_stack[cb_depth] = name;
+  cb_depth++;
+}
+static void
+cb_leave(void) {
+  cb_depth--;
+}
+
+static void hnd_get_body(coap_resource_t *resource, coap_session_t *session, const coap_pdu_t *request, coap_pdu_t *response);
+static void
 hnd_get(coap_resource_t *resource, coap_session_t *session, const coap_pdu_t *request, const coap_string_t *query,
         coap_pdu_t *response) {
   (void)query;
-  last_callback = "request-handler";
+  cb_enter("request-handler");
+  hnd_get_body(resource, session, request, response);
+  cb_leave();
+}
+static void
+hnd_get_body(coap_resource_t *resource, coap_session_t *session, const coap_pdu_t *request, coap_pdu_t *response) {
   sched_point("in-callback:request-handler"); /* the application may be preempted inside its callback */
   handler_calls++;
   vx_observe("cb request-handler in %s (call %d)", my_id >= 0 ? T[my_id].name : "main", handler_calls);
@@ -346,11 +412,23 @@ hnd_get(coap_resource_t *resource, coap_session_t *session, const coap_pdu_t *re
   coap_add_data(response, 2, (const uint8_t *)"ok");
 }
 
+/* what an application typically does with the session it is called back for: pin it, look at it, unpin it - two lock-taking
+ * public API calls from inside the callback */
+static void
+reenter(coap_session_t *s) {
+  if (tearing_down || !s)
+    return;
+  coap_session_reference(s);
+  (void)coap_session_get_state(s);
+  coap_session_release(s);
+  reentry_returns++;
+}
+
 static coap_response_t
 resp_handler(coap_session_t *session, const coap_pdu_t *sent, const coap_pdu_t *received, const coap_mid_t mid) {
   (void)sent;
   (void)mid;
-  last_callback = "response-handler";
+  cb_enter("response-handler");
   sched_point("in-callback:response-handler"); /* the application may be preempted inside its callback */
   vx_observe("cb response-handler in %s", my_id >= 0 ? T[my_id].name : "main");
   coap_opt_iterator_t oi;
@@ -368,6 +446,7 @@ resp_handler(coap_session_t *session, const coap_pdu_t *sent, const coap_pdu_t *
         req_sent++;
     }
   }
+  cb_leave();
   return COAP_RESPONSE_OK;
 }
 static void
@@ -375,22 +454,198 @@ nack_handler(coap_session_t *session, const coap_pdu_t *sent, const coap_nack_re
   (void)sent;
   (void)reason;
   (void)mid;
-  last_callback = "nack-handler";
+  cb_enter("nack-handler");
   sched_point("in-callback:nack-handler"); /* the application may be preempted inside its callback */
   nack_seen++;
   vx_observe("cb nack-handler in %s", my_id >= 0 ? T[my_id].name : "main");
   (void)coap_session_get_state(session);
   (void)coap_session_get_addr_local(session);
+  if (C->flags & F_CBX)
+    reenter(session);
+  cb_leave();
 }
 static int
 event_handler(coap_session_t *session, const coap_event_t event) {
   (void)event;
-  last_callback = "event-handler";
+  cb_enter("event-handler");
   sched_point("in-callback:event-handler"); /* the application may be preempted inside its callback */
   ev_seen++;
   vx_observe("cb event-handler in %s", my_id >= 0 ? T[my_id].name : "main");
   (void)coap_session_get_type(session);
   (void)coap_session_get_app_data(session);
+  if (C->flags & F_CBX)
+    reenter(session);
+  cb_leave();
+  return 0;
+}
+
+/* ---- the call-outs of the "c13x:" family ---- */
+static void
+ping_handler(coap_session_t *session, const coap_pdu_t *received, const coap_mid_t mid) {
+  (void)received;
+  (void)mid;
+  cb_enter("ping-handler");
+  sched_point("in-callback:ping-handler");
+  ping_seen++;
+  vx_observe("cb ping-handler in %s (%s session, %s)", my_id >= 0 ? T[my_id].name : "main",
+             coap_session_get_type(session) == COAP_SESSION_TYPE_CLIENT ? "client" : "server",
+             coap_session_get_proto(session) == COAP_PROTO_TCP ? "tcp" : "udp");
+  reenter(session);
+  cb_leave();
+}
+static void
+pong_handler(coap_session_t *session, const coap_pdu_t *received, const coap_mid_t mid) {
+  (void)received;
+  (void)mid;
+  cb_enter("pong-handler");
+  sched_point("in-callback:pong-handler");
+  pong_seen++;
+  vx_observe("cb pong-handler in %s (%s, peer %s)", my_id >= 0 ? T[my_id].name : "main",
+             coap_session_get_proto(session) == COAP_PROTO_TCP ? "tcp 7.03" : "udp RST for keep-alive",
+             session == cs ? "own endpoint" : "raw");
+  reenter(session);
+  cb_leave();
+}
+static int cache_tag[MAXT], res_tag[MAXT], large_tag[MAXT];
+static void
+cache_free_cb(void *data) {
+  cb_enter("cache-app-data-free");
+  sched_point("in-callback:cache-app-data-free");
+  callout_seen++;
+  vx_observe("cb cache-app-data-free in %s (entry of w%d)", my_id >= 0 ? T[my_id].name : "main", (int)((int *)data - cache_tag));
+  reenter(cs);
+  cb_leave();
+}
+static void
+release_userdata_cb(void *data) {
+  cb_enter("resource-release-userdata");
+  sched_point("in-callback:resource-release-userdata");
+  callout_seen++;
+  vx_observe("cb resource-release-userdata in %s (resource of w%d)", my_id >= 0 ? T[my_id].name : "main", (int)((int *)data - res_tag));
+  reenter(cs);
+  cb_leave();
+}
+static void
+large_release_cb(coap_session_t *session, void *app_ptr) {
+  cb_enter("large-data-release");
+  sched_point("in-callback:large-data-release");
+  callout_seen++;
+  vx_observe("cb large-data-release in %s (body of w%d)", my_id >= 0 ? T[my_id].name : "main", (int)((int *)app_ptr - large_tag));
+  reenter(session);
+  cb_leave();
+}
+/* observe persist tracking call-outs (coap_persist_track_funcs) */
+static int
+observe_added_cb(coap_session_t *session, coap_subscription_t *key, coap_proto_t proto, coap_address_t *listen, coap_addr_tuple_t *tuple,
+                 coap_bin_const_t *raw, coap_bin_const_t *oscore, void *ud) {
+  (void)key;
+  (void)proto;
+  (void)listen;
+  (void)tuple;
+  (void)raw;
+  (void)oscore;
+  (void)ud;
+  cb_enter("observe-added");
+  sched_point("in-callback:observe-added");
+  callout_seen++;
+  vx_observe("cb observe-added in %s", my_id >= 0 ? T[my_id].name : "main");
+  reenter(session);
+  cb_leave();
+  return 1;
+}
+static int
+observe_deleted_cb(coap_session_t *session, coap_subscription_t *key, void *ud) {
+  (void)key;
+  (void)ud;
+  cb_enter("observe-deleted");
+  sched_point("in-callback:observe-deleted");
+  callout_seen++;
+  vx_observe("cb observe-deleted in %s", my_id >= 0 ? T[my_id].name : "main");
+  reenter(session);
+  cb_leave();
+  return 1;
+}
+static int
+track_observe_cb(coap_context_t *c, coap_str_const_t *name, uint32_t num, void *ud) {
+  (void)c;
+  (void)name;
+  (void)num;
+  (void)ud;
+  cb_enter("track-observe-value");
+  sched_point("in-callback:track-observe-value");
+  callout_seen++;
+  vx_observe("cb track-observe-value in %s", my_id >= 0 ? T[my_id].name : "main");
+  reenter(cs);
+  cb_leave();
+  return 1;
+}
+static int
+resource_deleted_cb(coap_context_t *c, coap_str_const_t *name, void *ud) {
+  (void)c;
+  (void)name;
+  (void)ud;
+  cb_enter("resource-deleted");
+  sched_point("in-callback:resource-deleted");
+  callout_seen++;
+  vx_observe("cb resource-deleted in %s", my_id >= 0 ? T[my_id].name : "main");
+  reenter(cs);
+  cb_leave();
+  return 1;
+}
+
+/* raw UDP peer (an address without libcoap socket): answers the keep-alive ping (empty CON) with RST, ignores the rest */
+static void
+raw_rx(const ns_dgram_t *d) {
+  struct w_msg m;
+  if (ns_addr_host(&d->dst) != RAW_HOST || !w_parse(d->data, d->len, &m))
+    return;
+  if (m.type == 0 && m.code == 0 && m.tkl == 0 && d->len == 4) {
+    uint8_t rst[4] = {0x70, 0x00, (uint8_t)(m.mid >> 8), (uint8_t)m.mid};
+    ns_inject(&d->dst, &d->src, rst, 4);
+    raw_rst_sent++;
+    vx_observe("raw peer: empty CON (ping) received -> RST");
+  }
+}
+/* raw CoAP-over-TCP peer, zero latency: sees every frame the libcoap side writes and appends its answer to what that
+ * side will read: 7.01 CSM -> 7.01 CSM, 7.02 Ping -> 7.03 Pong; everything else is swallowed */
+static void
+raw_tcp_filter(ns_stream_t *s, int from_side, uint8_t *data, size_t *len, size_t cap) {
+  (void)cap;
+  if (from_side != 0 || ns_addr_host(&s->addr[1]) != RAWTCP_HOST)
+    return;
+  size_t p = 0;
+  while (p + 2 <= *len) {
+    unsigned l = data[p] >> 4, tkl = data[p] & 15, ext = l == 13 ? 1 : l == 14 ? 2 : l == 15 ? 4 : 0;
+    if (p + 1 + ext + 1 > *len)
+      break;
+    size_t body = l;
+    if (l == 13)
+      body = 13u + data[p + 1];
+    else if (l == 14)
+      body = 269u + ((unsigned)data[p + 1] << 8 | data[p + 2]);
+    else if (l == 15)
+      break;
+    uint8_t code = data[p + 1 + ext];
+    if (code == 0xE1) {
+      static const uint8_t csm[2] = {0x00, 0xE1};
+      ns_stream_raw_write(s, 1, csm, 2);
+    } else if (code == 0xE2 && tkl <= 8 && p + 2 + ext + tkl <= *len) {
+      uint8_t pong[2 + 8] = {(uint8_t)tkl, 0xE3};
+      memcpy(pong + 2, data + p + 2 + ext, tkl);
+      ns_stream_raw_write(s, 1, pong, 2 + tkl);
+      raw_pong_sent++;
+      vx_observe("raw tcp peer: 7.02 Ping received -> 7.03 Pong");
+    }
+    p += 1 + ext + 1 + tkl + body;
+  }
+}
+static NOINSTR int
+stream_readable(void) {
+  for (int i = 0; i < ns_stream_count(); i++) {
+    struct ns_stream_side *sd = &ns_stream_get(i)->side[0];
+    if (sd->sock && !sd->closed && sd->rx_avail > 0)
+      return 1;
+  }
   return 0;
 }
 
@@ -473,6 +728,86 @@ do_op(int op, int w) {
     }
     break;
   }
+  case OP_SLEEP:
+    /* the calling application thread sleeps: wall-clock time passes for every thread (keep-alive and cache idle timers of the
+     * I/O thread become due while the API threads are alive); returning from the blocking call is a free scheduling point */
+    ns_advance(SLEEP_MS);
+    real_lock(&smu);
+    schedule("sleep-returns", 2);
+    real_unlock(&smu);
+    break;
+  case OP_RAW_PING: {
+    /* the network brings CoAP pings from the raw peers: an empty CON to the server endpoint (new server session), an empty
+     * CON to the socket of the client session, and a 7.02 Ping on the TCP connection */
+    uint8_t ping[4] = {0x40, 0x00, 0x51, (uint8_t)w};
+    ns_inject(&rawpeer, &srv, ping, 4);
+    ping[2] = 0x52;
+    ns_inject(&rawpeer, coap_session_get_addr_local(rawc), ping, 4);
+    if (tcp_stream) {
+      static const uint8_t sping[2] = {0x00, 0xE2};
+      ns_stream_raw_write(tcp_stream, 1, sping, 2);
+    }
+    break;
+  }
+  case OP_SEND_PING:
+    /* application-initiated ping (not the keep-alive): over UDP the RST comes back as a NACK callback, over TCP as a pong callback */
+    (void)coap_session_send_ping(cs);
+    if (tcps)
+      (void)coap_session_send_ping(tcps);
+    break;
+  case OP_CACHE_APP: {
+    coap_pdu_t *p = coap_new_pdu(COAP_MESSAGE_CON, COAP_REQUEST_CODE_GET, cs);
+    if (p) {
+      uint8_t v = (uint8_t)(0x80 + w);
+      coap_add_option(p, COAP_OPTION_URI_PATH, 1, &v);
+      /* idle timeout 1 s: the I/O thread expires the entry (=> app-data free call-out) once an API thread has slept */
+      coap_cache_entry_t *e = coap_new_cache_entry(cs, p, COAP_CACHE_NOT_RECORD_PDU, COAP_CACHE_IS_SESSION_BASED, 1);
+      if (e)
+        coap_cache_set_app_data(e, &cache_tag[w], cache_free_cb);
+      coap_delete_pdu(p);
+    }
+    break;
+  }
+  case OP_RESOURCE_UD: {
+    char nm[8];
+    snprintf(nm, sizeof nm, "u%d", w);
+    coap_resource_t *r = coap_resource_init(coap_make_str_const(nm), 0);
+    if (r) {
+      coap_resource_set_userdata(r, &res_tag[w]);
+      coap_register_request_handler(r, COAP_REQUEST_GET, hnd_get);
+      coap_add_resource(ctx, r);
+      coap_delete_resource(ctx, r); /* => resource-deleted (persist) and release-userdata call-outs in this thread */
+    }
+    break;
+  }
+  case OP_SEND_LARGE: {
+    coap_pdu_t *p = coap_new_pdu(COAP_MESSAGE_CON, COAP_REQUEST_CODE_GET, cs);
+    if (p) {
+      uint8_t tok = (uint8_t)(0x60 + w);
+      coap_add_token(p, 1, &tok);
+      coap_add_option(p, COAP_OPTION_URI_PATH, 1, (const uint8_t *)"r");
+      /* => large-data release call-out in this thread, inside the API call */
+      (void)coap_add_data_large_request(cs, p, 4, (const uint8_t *)"body", large_release_cb, &large_tag[w]);
+      if (coap_send(cs, p) != COAP_INVALID_MID)
+        req_sent++;
+    }
+    break;
+  }
+  case OP_OBSERVE:
+  case OP_DEREGISTER: {
+    /* observe: new observation on q (=> observe-added + track-observe-value call-outs in the I/O thread);
+     * deregister: GET Observe=1 with the token of the observation set up on r (=> observe-deleted call-out) */
+    coap_pdu_t *p = coap_new_pdu(COAP_MESSAGE_CON, COAP_REQUEST_CODE_GET, cs);
+    if (p) {
+      uint8_t tok = op == OP_OBSERVE ? (uint8_t)(0x50 + w) : 0x01, one = 1;
+      coap_add_token(p, 1, &tok);
+      coap_add_option(p, COAP_OPTION_OBSERVE, op == OP_OBSERVE ? 0 : 1, &one);
+      coap_add_option(p, COAP_OPTION_URI_PATH, 1, (const uint8_t *)(op == OP_OBSERVE ? "q" : "r"));
+      if (coap_send(cs, p) != COAP_INVALID_MID)
+        req_sent++;
+    }
+    break;
+  }
   }
 }
 
@@ -481,11 +816,28 @@ async_ready(void) {
   return pend_async != NULL || workers_done_io;
 }
 
+/* readiness: EPOLLIN for every libcoap stream socket with unread bytes (level triggered), then netsim's datagram event */
+static int
+io_fill(struct epoll_event *ev, int max) {
+  int n = 0;
+  for (int i = 0; i < ns_stream_count() && n < max - 1; i++) {
+    ns_stream_t *st = ns_stream_get(i);
+    (void)ns_stream_raw_read(st, 1, NULL, (size_t)-1); /* the raw peer has consumed what was written to it (see raw_tcp_filter) */
+    struct ns_stream_side *sd = &st->side[0];
+    if (sd->sock && !sd->closed && sd->rx_avail > 0) {
+      ev[n].events = EPOLLIN;
+      ev[n].data.ptr = sd->sock;
+      n++;
+    }
+  }
+  return n + ns_epoll_fill(ev + n, max - n);
+}
+
 static int
 epoll_hook(int epfd, struct epoll_event *ev, int max, int timeout) {
   (void)epfd;
   if (timeout == 0)
-    return ns_epoll_fill(ev, max); /* the non-blocking refresh call */
+    return io_fill(ev, max); /* the non-blocking refresh call */
   if (sched_on && my_id >= 0 && lock_owner == my_id) {
     /* the anchor mechanism "unlock around select/epoll_wait": blocking while holding the lock starves every other thread */
     char sig[120];
@@ -496,8 +848,10 @@ epoll_hook(int epfd, struct epoll_event *ev, int max, int timeout) {
   }
   if (sched_on && my_id >= 0) {
     real_lock(&smu);
-    if (ns_inflight_count() == 0) {
-      /* blocking wait made visible: not runnable until a datagram arrives or nothing else can run (timeout) */
+    io_deadline = ns_now() + (timeout > 0 ? (uint64_t)timeout : 1000000u);
+    if (ns_inflight_count() == 0 && !stream_readable()) {
+      /* blocking wait made visible: not runnable until a datagram / stream bytes arrive, virtual time reaches the timeout,
+       * or nothing else can run (timeout) */
       T[my_id].state = T_WAITIO;
       schedule("epoll_wait(blocked)", 0);
       T[my_id].state = T_RUN;
@@ -505,7 +859,7 @@ epoll_hook(int epfd, struct epoll_event *ev, int max, int timeout) {
       schedule("epoll_wait", 1);
     real_unlock(&smu);
   }
-  int n = ns_epoll_fill(ev, max);
+  int n = io_fill(ev, max);
   if (n == 0) {
     io_idle++;
     if (workers_done >= C->nworkers && timeout > 0) {
@@ -529,11 +883,21 @@ static void
 setup(void) {
   ns_addr(&srv, 1, 5683);
   ns_addr(&deadpeer, 9, 5683);
+  ns_addr(&rawpeer, RAW_HOST, 5683);
+  ns_addr(&rawtcp, RAWTCP_HOST, 5683);
   ctx = coap_new_context(NULL);
   ns_register_ctx(ctx);
   coap_register_response_handler(ctx, resp_handler);
   coap_register_nack_handler(ctx, nack_handler);
   coap_register_event_handler(ctx, event_handler);
+  if (C->flags & F_CBX) {
+    coap_register_ping_handler(ctx, ping_handler);
+    coap_register_pong_handler(ctx, pong_handler);
+    coap_resource_release_userdata_handler(ctx, release_userdata_cb);
+    coap_context_set_keepalive(ctx, KEEPALIVE_S);
+    ns_raw_rx = raw_rx;
+    ns_stream_filter = raw_tcp_filter;
+  }
   coap_new_endpoint(ctx, &srv, COAP_PROTO_UDP);
   res_r = coap_resource_init(coap_make_str_const("r"), 0);
   coap_register_request_handler(res_r, COAP_REQUEST_GET, hnd_get);
@@ -544,9 +908,19 @@ setup(void) {
   coap_resource_set_get_observable(res_q, 1);
   coap_add_resource(ctx, res_q);
   cs = coap_new_client_session(ctx, NULL, &srv, COAP_PROTO_UDP);
-  dead = coap_new_client_session(ctx, NULL, &deadpeer, COAP_PROTO_UDP);
-  coap_session_set_max_retransmit(dead, 1);
-  coap_session_set_ack_timeout(dead, (coap_fixed_point_t){1, 0});
+  if (C->flags & F_CBX) {
+    /* (no session to a silent peer here: with keep-alive on it would be pinged, given up and closed - the give-up path belongs
+     * to the "c13:" family) */
+    rawc = coap_new_client_session(ctx, NULL, &rawpeer, COAP_PROTO_UDP);
+    if (C->flags & F_TCP) {
+      tcps = coap_new_client_session(ctx, NULL, &rawtcp, COAP_PROTO_TCP); /* CSM goes out, the raw peer's CSM is read below */
+      tcp_stream = ns_stream_count() ? ns_stream_get(ns_stream_count() - 1) : NULL;
+    }
+  } else {
+    dead = coap_new_client_session(ctx, NULL, &deadpeer, COAP_PROTO_UDP);
+    coap_session_set_max_retransmit(dead, 1);
+    coap_session_set_ack_timeout(dead, (coap_fixed_point_t){1, 0});
+  }
   /* register an observation on r so that notify has something to do */
   coap_pdu_t *p = coap_new_pdu(COAP_MESSAGE_CON, COAP_REQUEST_CODE_GET, cs);
   uint8_t t = 0x01;
@@ -558,6 +932,13 @@ setup(void) {
     req_sent++;
   for (int i = 0; i < 6; i++)
     coap_io_process(ctx, 100);
+  if (C->flags & F_PERSIST) /* after the set-up observation: these call-outs are to happen while the API threads are alive */
+    coap_persist_track_funcs(ctx, observe_added_cb, observe_deleted_cb, track_observe_cb, NULL, resource_deleted_cb, 1, NULL);
+  if ((C->flags & F_TCP) && (!tcps || coap_session_get_state(tcps) != COAP_SESSION_STATE_ESTABLISHED)) {
+    vx_fail("harness:tcp-session-not-established", "set-up: TCP client session to the raw peer is not established (state %d)",
+            tcps ? (int)coap_session_get_state(tcps) : -1);
+    vx_exit_now();
+  }
 }
 
 static void *
